@@ -96,7 +96,7 @@ def gen_case(rng, pid, uid):
         for j in range(rng.choice([0, 1, 1, 2, 3]) if pid == "C10" else rng.choice([0, 0, 1, 2])):
             r = {"attr": f"r{j}" if rng.random() < 0.8 else f"_r{j}", "default": rng.choice(defaults), "inherited": rng.random() < 0.3}
             if rng.random() < 0.12:
-                r["default"] = {"$sentinel": rng.randrange(4)}     # UNSET = object(): a default that only has identity
+                r["default"] = {"$sentinel": rng.randrange(6)}     # UNSET = object(): a default that only has identity (4, 5: a function / a class meant as the value)
             if not r["inherited"] and rng.random() < 0.25:
                 r["base_default"] = rng.choice([d for d in defaults if d != r["default"] or type(d) is not type(r["default"])])
             c["resets"].append(r)
@@ -638,6 +638,10 @@ def check_setup(spec, run, V, acc):
             if not a["all_components_exist"] or not all(a["injected_identity"]) or not a.get("all_injected", True):
                 V.add("C06", "setup-before-wiring", f"{e[1]} ran with all_components_exist={a['all_components_exist']} "
                                                     f"own injected_identity={a['injected_identity']} every-component-injected={a.get('all_injected')}")
+            if a.get("n_resets"):
+                V.ev("will_reset_to-read-in-setup", a["n_resets"])
+            if a.get("resets_not_at_default"):
+                V.add("C10", "not-at-default-in-setup", f"{e[1]} read will_reset_to attributes that were not at their declared default: {a['resets_not_at_default'][:3]}")
 
 
 def check_mode_and_timing(spec, run, V, acc):
